@@ -76,7 +76,7 @@ PROPS = {
                 families=[sat("messages", "messages", 1500, 12000, ["message", "described", "described_custom"]),
                           eng("engine", "C11", 700, 8000, ["params", "dtype", "msg", "panic"])]),
     "C13": dict(theorems=["C13_modes_agree", "C13_engine_modes_agree", "C13_default_coercers_are_identity_on_typed_values", "C13_premise_is_satisfiable", "C13_engine_computes_semantics"], cone=ENGINE_CONE + ["Proofs/ModesP.v", "Model/Coerce.v"],
-                rule="a generated schema (no Preprocess, no PostTransforms, no custom coercers) and a generated fully populated value of its destination type (no zero leaf, no empty slice, no nil pointer); the value is validated in place and, presented as the plain map it would be decoded from, parsed into a fresh destination; issues (path, code, type, message) and final values are compared with each other (model-free) and both executions with the Coq engine; distinct = distinct (schema shape, issue codes, mode)",
+                rule="a generated schema (no Preprocess, no custom coercers; tests, Catch, Default and PostTransforms at every level) and a generated fully populated value of its destination type (no zero leaf, no empty slice, no nil pointer); the value is validated in place and, presented as the plain map it would be decoded from, parsed into a fresh destination; issues (path, code, type, message) and final values are compared with each other (model-free; with PostTransforms only when neither run reports an issue, because their gating on the execution-wide error state makes the result depend on each run's field visit order - the recorded C09 finding) and both executions with the Coq engine under their own visit orders; distinct = distinct (schema shape, issue codes, mode)",
                 families=[dict(name="modes", family="modes", profile="C13", quick=700, thorough=12000, tags=["modes_agree", "panic", "nil", "issues", "dest"])]),
     "C14": dict(theorems=["C14_struct_sources_agree", "C14_engine_computes_semantics", "C14_provider_key", "C14_factory_transparent_struct",
                           "C14_factory_transparent_ptr", "C14_nested_source_tag_refuted", "C14_nested_flat_source_refuted"],
